@@ -46,6 +46,19 @@ def make(cmd: dict):
     return P.Aa55ProtocolCommand(bytes(cmd["payload"]).hex(), "%04x" % cmd["rt"])
 
 
+def make_via_protocol(cmd: dict):
+    """The command as UdpInverterProtocol / TcpInverterProtocol.read_command / write_command / write_multi_command build it."""
+    P, _, _ = _lib()
+    if cmd["fr"] not in ("rtu", "tcp"):
+        return None
+    proto = (P.UdpInverterProtocol if cmd["fr"] == "rtu" else P.TcpInverterProtocol)("inverter", 8899, cmd["addr"], 1, 0)
+    if cmd["op"] == "read":
+        return proto.read_command(cmd["reg"], cmd["n"])
+    if cmd["op"] == "write":
+        return proto.write_command(cmd["reg"], cmd["n"])
+    return proto.write_multi_command(cmd["reg"], bytes(cmd["payload"]))
+
+
 def C(fr, op, addr=0xF7, reg=0, n=0, rt=-1, payload=()):
     if fr == "aa55":
         addr = 127
@@ -327,6 +340,11 @@ def gen_request_cases(tier: str, rnd: random.Random) -> list[dict]:
             obj = make(cmd)
             b = bytes(obj.request_bytes())
             cases.append({"kind": "request", "cmd": cmd, "data": b, "exc": ""})
+            fobj = make_via_protocol(cmd)
+            if fobj is not None:
+                # the same operation built the way the inverter classes build it: through the factory methods of a protocol
+                # object created for this communication address (many such objects live in this process)
+                cases.append({"kind": "request", "cmd": cmd, "data": bytes(fobj.request_bytes()), "exc": "", "mut": "factory"})
             if cmd["fr"] == "tcp":
                 b2 = bytes(obj.request_bytes())   # a retransmission: new transaction id, same operation
                 cases.append({"kind": "request", "cmd": cmd, "data": b2, "exc": ""})
